@@ -65,6 +65,8 @@ def cases(tier: str, seed: int) -> List[Dict[str, Any]]:
         comp = ["mlp", "residual", "sequential_root"] if tier == "quick" else list(FAMILIES)
         if fam in comp:
             for us in (False, True):
+                if us and fam == "unit_layers":
+                    continue
                 out.append({"family": fam, "unit_scale": us, "fmt": None, "final": "compile", "seed": seed})
     return out
 
